@@ -45,6 +45,11 @@ const (
 	Trunc20   // truncated to 20 bytes
 	TruncLast // last byte removed
 	NumFates
+	// Outages (not part of the per-datagram fate alphabets above): this datagram and
+	// everything sent in the same direction during the following period is lost; the log
+	// records every datagram lost that way with fate Drop.
+	Outage100ms Fate = 100
+	Outage1s    Fate = 101
 )
 
 var fateNames = [...]string{"deliver", "drop", "dup", "delay", "delaylong", "flip0", "flip7", "flipmid", "fliplast", "trunc1", "trunc20", "trunclast"}
@@ -52,6 +57,12 @@ var fateNames = [...]string{"deliver", "drop", "dup", "delay", "delaylong", "fli
 func (f Fate) String() string {
 	if int(f) < len(fateNames) {
 		return fateNames[f]
+	}
+	switch f {
+	case Outage100ms:
+		return "outage100ms"
+	case Outage1s:
+		return "outage1s"
 	}
 	return fmt.Sprintf("fate%d", int(f))
 }
@@ -124,6 +135,7 @@ type Router struct {
 	OnSend func(ev Event)
 	// Blackhole drops everything sent in the given direction from now on.
 	blackhole [2]bool
+	outageUntil [2]time.Duration // since start; see Outage100ms
 }
 
 func NewRouter(server net.Addr, latency time.Duration, faults FaultMap) *Router {
@@ -197,7 +209,13 @@ func (r *Router) SendPacket(p simnet.Packet) error {
 	r.count[dir]++
 	r.bytes[dir] += len(p.Data)
 	fate := r.Faults.lookup(Slot{dir, idx})
-	if r.blackhole[dir] {
+	switch fate {
+	case Outage100ms:
+		r.outageUntil[dir] = time.Since(r.start) + 100*time.Millisecond
+	case Outage1s:
+		r.outageUntil[dir] = time.Since(r.start) + time.Second
+	}
+	if r.blackhole[dir] || time.Since(r.start) < r.outageUntil[dir] {
 		fate = Drop
 	}
 	ev := Event{Dir: dir, Idx: idx, T: time.Since(r.start), Fate: fate, Data: append([]byte(nil), p.Data...), From: p.From, To: p.To}
